@@ -111,6 +111,7 @@ var checks = map[string][]HarnessSpec{
 	},
 	"C18": {
 		{Name: "verifC18Dial", Pkg: ".", Labels: []string{"returned", "connected", "all-failed", "quiesced"}},
+		{Name: "verifC18Defaults", Pkg: ".", Labels: []string{"defaults"}},
 	},
 	"C19": {
 		{Name: "verifC19RoundTrip", Pkg: ".", Labels: []string{"roundtrip", "h3", "https", "plaintext-refused"}},
